@@ -27,7 +27,7 @@ func init() {
 	register(&Driver{
 		ID:        "C20",
 		Technique: "stateless model checking under a controlled scheduler: (A) every goroutine interleaving (<=2 concurrently scanned components; preemption-bounded for 3) of the real parallel scanning phase and of the real parallel Close, with the race detector as per-schedule oracle (scheduler hand-offs are invisible to tsan); (B) all interleavings of all small concurrent programs over the map / set utilities with a linearizability check of every recorded history",
-		Rule:      "(A) components {1,2,3} x scanners {failing user scanner, + built-in tag scanner} x every subset of components on which the user scanner fails x every permutation of the spawn order; Close with 2-3 closers x failing subsets; whole starts serialised under several spawn orders and free-running; (B) programs of 2 threads x (1,1) and (2,1) operations and 3 threads x 1 operation (thorough: 2 x (2,2)) over sync2.Map {Load, Store, LoadOrStore, LoadOrStoreFn, Delete, Range} and ConcurrentSets / generic concurrent set {Put, Exists, Remove}, keys {k1,k2}, a distinct value per operation; non-trivial = program whose operations touch a common key",
+		Rule:      "(A) components {1,2,3} x scanners {failing user scanner, + built-in tag scanner} x every subset of components on which the user scanner fails x every permutation of the spawn order; Close with 2-3 closers x failing subsets; whole starts serialised under several spawn orders and free-running; (B) programs of 2 threads x (1,1) and (2,1) operations and 3 threads x 1 operation (thorough: 2 x (2,2)) over sync2.Map {Load, Store, LoadOrStore, LoadOrStoreFn, Delete, Range} and ConcurrentSets / generic concurrent set {Put, Exists, Remove, Length, ToArray}, keys {k1,k2}, from the empty structure and from pre-populated ones ({k1}, {k1,k2}), a distinct value per operation; non-trivial = program whose operations touch a common key",
 		Assumptions: []string{
 			"Go's sync.Map is linearizable per operation (each shim-level map operation is one atomic step; Range visits a snapshot)",
 			"data races are judged by tsan's happens-before model on the explored schedule; weak-memory effects below it are not covered",
@@ -35,7 +35,7 @@ func init() {
 		Parts: []Part{
 			{Name: "scan-races", Race: true, Verbose: true, Run: c20Scan, QuickS: 120, ThoroughS: 1500},
 			{Name: "close-races", Race: true, Verbose: true, Run: c20Close, QuickS: 60, ThoroughS: 600},
-			{Name: "whole-start", Race: true, Verbose: true, Run: c20Whole, Workers: 4, QuickS: 60, ThoroughS: 300},
+			{Name: "whole-start", Race: true, Verbose: true, Run: c20Whole, QuickS: 60, ThoroughS: 300},
 			{Name: "utilities", Run: c20Util, QuickS: 120, ThoroughS: 1800},
 		},
 	})
@@ -241,9 +241,11 @@ func c20Close(c *core.Ctx) {
 // ---------------------------------------------------------------- (A) whole starts
 
 type c20WholeCase struct {
-	Prog  int   `json:"program"`
-	Order []int `json:"spawn_order"`
-	Free  bool  `json:"free_running,omitempty"`
+	Prog    int   `json:"program"`
+	Order   []int `json:"spawn_order"`
+	Free    bool  `json:"free_running,omitempty"`
+	Deviate bool  `json:"single_schedule_deviations,omitempty"`
+	Script  []int `json:"schedule,omitempty"`
 }
 
 type c20Node struct {
@@ -272,7 +274,18 @@ func c20Whole(c *core.Ctx) {
 			}
 		}
 	}
-	Cases(c, gen, func(c *core.Ctx, cs c20WholeCase) {
+	// the deviation cases are split inside (every worker takes every program)
+	if c.ReplayCase == nil {
+		for prog := 0; prog < 3; prog++ {
+			c20WholeOne(c, c20WholeCase{Prog: prog, Deviate: true})
+		}
+	}
+	Cases(c, gen, c20WholeOne)
+}
+
+func c20WholeOne(c *core.Ctx, cs c20WholeCase) {
+	{
+		core.Tick()
 		names := []string{"wa", "wb", "wc"}
 		rank := map[string]int{}
 		for pos, i := range cs.Order {
@@ -296,6 +309,46 @@ func c20Whole(c *core.Ctx) {
 			err = a.Run(app.SetConfigLoader(), app.SetComponents(comps...))
 			a.Close()
 		}
+		if cs.Deviate {
+			// every single deviation from the default schedule of a whole Run+Close: the worker
+			// takes its share of the (point, alternative) pairs
+			vsync.KeyRank = nil
+			root := scen.ReplaySched(nil, body)
+			idx := 0
+			rec := append([]vsync.SchedPoint{}, vsync.Rec...)
+			_ = root
+			for i, pt := range rec {
+				for alt := 1; alt < pt.N; alt++ {
+					idx++
+					if !c.Mine(idx) {
+						continue
+					}
+					if idx&7 == 0 && c.Expired() {
+						return
+					}
+					pre := make([]int, i+1)
+					pre[i] = alt
+					e := scen.ReplaySched(pre, body)
+					c.S.Evaluations++
+					c.S.States++
+					c.S.Transitions += int64(len(e.Script))
+					if e.Raced || e.Deadlock || len(e.ChildPanics) > 0 {
+						cc := cs
+						cc.Script = pre
+						c.Outcome("data-race")
+						c.Report("C20/whole-dev/"+core.Hash(cs.Prog), "data-race", fmt.Sprintf("whole start+close of program %d with the schedule deviating at point %d (alternative %d of %d): race=%v deadlock=%v panics=%v\n%s", cs.Prog, i, alt, pt.N, e.Raced, e.Deadlock, e.ChildPanics, scen.RaceLogTail(1800)), cc)
+						return
+					}
+					c.Outcome(fmt.Sprintf("prog=%d/deviation/no-race", cs.Prog))
+				}
+			}
+			if c.Shard == 0 {
+				c.S.Programs++
+				c.S.Nontrivial++
+				c.Sample(map[string]any{"case": cs, "scheduling_choice_points": len(rec), "single_deviations": idx})
+			}
+			return
+		}
 		before := scen.RaceLogSize()
 		if cs.Free {
 			vsync.Chooser, vsync.OrderHook, vsync.KeyRank = nil, nil, nil
@@ -317,7 +370,7 @@ func c20Whole(c *core.Ctx) {
 		}
 		c.Outcome(fmt.Sprintf("prog=%d/free=%v/err=%v/no-race", cs.Prog, cs.Free, err != nil))
 		c.Sample(map[string]any{"case": cs, "start_error": err != nil})
-	})
+	}
 }
 
 // ---------------------------------------------------------------- (B) utilities
@@ -335,7 +388,8 @@ type c20Out struct {
 }
 
 type c20UtilCase struct {
-	Target  string    `json:"target"` // map set gset
+	Target  string    `json:"target"`                 // map set gset
+	Init    []string  `json:"initial_keys,omitempty"` // keys stored sequentially before the threads start
 	Threads [][]c20Op `json:"threads"`
 	Script  []int     `json:"schedule,omitempty"`
 }
@@ -389,6 +443,15 @@ func c20Step(st map[string]int, in c20Op, out c20Out) (bool, map[string]int) {
 		return !out.Loaded && out.Val == in.Val, m
 	case "range":
 		return out.Snap == snapOf(st), st
+	case "length":
+		return out.Val == len(st), st
+	case "toarray":
+		var ks []string
+		for k := range st {
+			ks = append(ks, k)
+		}
+		sort.Strings(ks)
+		return out.Snap == strings.Join(ks, ","), st
 	}
 	return false, st
 }
@@ -467,6 +530,32 @@ func c20UtilGen(c *core.Ctx) func(yield func(c20UtilCase) bool) {
 			}
 		}
 		alpha["map"] = append(alpha["map"], c20Op{Op: "range"})
+		alpha["set"] = append(alpha["set"], c20Op{Op: "length"}, c20Op{Op: "toarray"})
+		alpha["gset"] = append(alpha["gset"], c20Op{Op: "length"}, c20Op{Op: "toarray"})
+		// histories that start from a non-empty structure: two threads on a pre-populated set / map
+		for _, target := range []string{"set", "gset", "map"} {
+			al := alpha[target]
+			for _, init := range [][]string{{"k1"}, {"k1", "k2"}} {
+				for _, a := range al {
+					for _, b := range al {
+						if !yield(c20UtilCase{Target: target, Init: init, Threads: [][]c20Op{{a}, {b}}}) {
+							return
+						}
+						if target == "map" && !c.Thorough() {
+							continue
+						}
+						for _, d := range al {
+							if !yield(c20UtilCase{Target: target, Init: init, Threads: [][]c20Op{{a, d}, {b}}}) {
+								return
+							}
+							if c.Thorough() && !yield(c20UtilCase{Target: target, Init: init, Threads: [][]c20Op{{a}, {b}, {d}}}) {
+								return
+							}
+						}
+					}
+				}
+			}
+		}
 		for _, target := range []string{"map", "set", "gset"} {
 			al := alpha[target]
 			for _, a := range al {
@@ -516,6 +605,22 @@ func c20Util(c *core.Ctx) {
 			m := sync2.New[string, int]()
 			set := list.NewConcurrentSets()
 			gset := list.NewGenericConcurrentSets[string]()
+			for i, k := range cs.Init {
+				// sequential prefix (recorded as completed operations of a thread -1)
+				in := c20Op{Op: "store", Key: k, Val: 100 + i}
+				switch cs.Target {
+				case "map":
+					m.Store(k, 100+i)
+				case "set":
+					set.Put(k)
+					in = c20Op{Op: "put", Key: k, Val: 1}
+				default:
+					gset.Put(k)
+					in = c20Op{Op: "put", Key: k, Val: 1}
+				}
+				events = append(events, c20Event{Thread: -1, Call: true, Id: nextID, In: in}, c20Event{Thread: -1, Id: nextID, In: in})
+				nextID++
+			}
 			apply := func(i c20Op) c20Out {
 				switch cs.Target + "/" + i.Op {
 				case "map/load":
@@ -547,6 +652,18 @@ func c20Util(c *core.Ctx) {
 					return c20Out{Loaded: gset.Exists(i.Key)}
 				case "gset/remove":
 					gset.Remove(i.Key)
+				case "set/length":
+					return c20Out{Val: set.Length()}
+				case "gset/length":
+					return c20Out{Val: gset.Length()}
+				case "set/toarray":
+					a := set.ToArray()
+					sort.Strings(a)
+					return c20Out{Snap: strings.Join(a, ",")}
+				case "gset/toarray":
+					a := gset.ToArray()
+					sort.Strings(a)
+					return c20Out{Snap: strings.Join(a, ",")}
 				default:
 					panic("unknown op " + i.Op)
 				}
@@ -608,7 +725,7 @@ func c20Util(c *core.Ctx) {
 					}
 				}
 				c.Outcome(cs.Target + "/not-linearizable")
-				c.Report("C20/util-lin/"+core.Hash(cs.Target, cs.Threads), "not-linearizable", fmt.Sprintf("%s program %v under schedule %v: no sequential order explains the history%s", cs.Target, threads, e.Script, sb.String()), cc)
+				c.Report("C20/util-lin/"+core.Hash(cs.Target, cs.Init, cs.Threads), "not-linearizable", fmt.Sprintf("%s (initial keys %v) program %v under schedule %v: no sequential order explains the history%s", cs.Target, cs.Init, threads, e.Script, sb.String()), cc)
 				return
 			}
 			c.Outcome(cs.Target + "/linearizable")
